@@ -793,7 +793,11 @@ class EvoOracle(Oracle):
             self.fail(f"C13:command-format:{k}", f"op {i}: {cmd!r}", i)
             return
         mask, lc, slots, grid, site, sel, arm = int(m.group(1)), m.group(2), m.group(3), int(m.group(4)), int(m.group(5)), m.group(6), int(m.group(7))
-        slot_vals = [None if s == "0" else F(s.strip('"')) for s in slots.rstrip(",").split(",")]
+        try:
+            slot_vals = [None if s == "0" else F(s.strip('"')) for s in slots.rstrip(",").split(",")]
+        except (ValueError, ZeroDivisionError):
+            self.fail(f"C13:command-format:{k}", f"op {i}: a tip volume of the command is not a number: {cmd!r}", i)
+            return
         nums = [t[1] if t[0] == "int" else int(math.log2(t[1])) + 1 for t in op["tips"]]
         want_mask = 0
         for t in nums:
